@@ -323,6 +323,9 @@ class ExprMixin:
             ety = self.list_elem(ty.cls)
             self.write_field(st, r, ty.cls, 'items', coerce(sv, TSeq(ety), self.classes))
             return r
+        if isinstance(ty, TOpt) and isinstance(ty.inner, TRef) and ty.inner.cls.startswith(('list:', 'dict:')) \
+                and isinstance(sv.ty, (TSeq, TMap)):
+            return coerce(self.coerce(st, sv, ty.inner), ty, self.classes)
         if isinstance(ty, TRef) and ty.cls.startswith('dict:') and isinstance(sv.ty, TMap):
             r = self.new_object(st, ty.cls)
             k, v = self.dict_kv(ty.cls)
